@@ -53,7 +53,7 @@ func main() {
 	runner.Main(runner.Config{
 		ID:    "C03",
 		Level: "fault_enumeration",
-		Rule:  "per configuration {fresh,overlay bowl} x {rsync-only patch, optimized patch (bsdiff series, rediff partitions 2)} x {none,gzip-6,brotli-1} x build pair (>=1 MiB fresh data interleaved with reused blocks in >=2 files, whole-file copies, empty files; one pair >=4 MiB): reference run without saves; recording run with an always-saving consumer that snapshots output+stage directories at every ShouldSave call and every Save and gob-encodes each checkpoint on the spot. Enumerated: crash = every checkpoint k x crash snapshot t in {at the checkpoint, next message, next checkpoint, last call of the same file, first call of the next file, last call, after the last message} x torn state of each file differing between k and t in {as at t, as at k, truncated to {ckpt offset, +1, midpoint, len-1}, zero-filled after the ckpt offset, missing if created after k} (all single-file deviations; product over the checkpointed file and the file in progress at t); chain = resume, stop at the n-th offered checkpoint, resume again, depth 3; sched = ShouldSave true only at call i / from call i on / on a window [i,j<=i+3], saves continuing or stopping. Every resumption: brand-new patcher, pool, bowl, gob-decoded checkpoint; final tree compared with the reference run's tree. Non-trivial = the resumed run started from a directory state that differs from the completed state (it had bytes to write) or, for the recording sub-check, at least one checkpoint was offered.",
+		Rule:  "per configuration {fresh,overlay bowl} x {rsync-only patch, optimized patch (bsdiff series, rediff partitions 2)} x {none,gzip-6,brotli-1} x build pair (>=1 MiB fresh data interleaved with reused blocks in >=2 files, whole-file copies, empty files, a deleted file; one pair >=4 MiB; quick: 8 of the 36 configurations): reference run without saves; recording run with an always-saving consumer (Save -> continue) that snapshots output+stage directories at every ShouldSave call, at every Save and after the last message, and gob-encodes each checkpoint on the spot. Enumerated: crash = every checkpoint k x crash snapshot t in {at the checkpoint, next message, next checkpoint, last call of the same file, first call of the next file, last call, after the last message} x torn states: every single differing file in {as at t, as at k / missing if created after k, truncated to {ckpt offset, +1, midpoint, written extent-1, len-1}, zero-filled after the ckpt offset} (reduced set for files other than the checkpointed one and the one in progress at t) plus the product of the reduced sets over those two files; chain = resume from k (crash at the checkpoint, at the next checkpoint, or one message later with the checkpointed file cut back), stop at the n-th offered checkpoint (n in {1,2} per leg), resume again, depth 3, then run to completion still saving; sched = from scratch with ShouldSave true only at call i / from call i on / on a window [i,j<=i+3], every Save continuing or every Save stopping (then a brand-new patcher resumes and the schedule goes on). Every resumption uses a brand-new patcher, pool and bowl and the gob-decoded checkpoint; oracle: nil error (ErrStop exactly when a Save asked to stop) and final tree (after Commit) byte-identical to the reference run's tree. Non-trivial: crash/chain = the crash snapshot precedes the end of the run or a file is torn (the resumed run has bytes to write); sched = at least one checkpoint was saved; recording = at least one checkpoint was offered.",
 		Assumptions: []string{
 			"crash model: file-granular; a file is as at the crash snapshot, as at the checkpoint, truncated, zero-filled after the checkpointed offset, or missing if created after the checkpoint; no reordering inside one write",
 			"crashes during bowl.Commit are not enumerated (the statement speaks of checkpoints handed to the save consumer, which happens before Commit)",
@@ -74,10 +74,10 @@ func configs(quick bool) []Config {
 			{"overlay", "rsync", "gzip-6", "p1"},
 			{"fresh", "rsync", "gzip-6", "p1"},
 			{"overlay", "rsync", "none", "p1"},
-			{"overlay", "bsdiff", "none", "p1"},
-			{"fresh", "bsdiff", "gzip-6", "p1"},
+			{"overlay", "bsdiff", "gzip-6", "p2"},
+			{"fresh", "bsdiff", "none", "p2"},
 			{"overlay", "rsync", "brotli-1", "p4m"},
-			{"fresh", "bsdiff", "brotli-1", "p1"},
+			{"fresh", "bsdiff", "brotli-1", "p2"},
 		}
 	}
 	var out []Config
@@ -128,17 +128,13 @@ func body(w *runner.W) {
 		if ci%G != g || w.Expired() {
 			continue
 		}
-		t0 := time.Now()
 		rec := e.recording(cfg)
-		tRec := time.Since(t0)
-		mine := 0
 		emit := func(c Case) {
 			c.Cfg, c.Sig = cfg, rec.sig
 			o := ord[c.Kind]
 			ord[c.Kind]++
 			nCases[c.Kind]++
 			if o%size == rank {
-				mine++
 				subs[c.Kind].DoOwned(c)
 			}
 		}
@@ -150,11 +146,8 @@ func body(w *runner.W) {
 		enumCrash(rec, w.Quick(), emit)
 		enumChain(rec, w.Quick(), emit)
 		enumSched(rec, w.Quick(), emit)
-		if dbg := os.Getenv("C03_DEBUG"); dbg != "" {
-			f, _ := os.OpenFile(dbg, os.O_APPEND|os.O_CREATE|os.O_WRONLY, 0o644)
-			fmt.Fprintf(f, "w%d cfg=%s rec=%.2fs total=%.2fs mine=%d\n", idx, cfg, tRec.Seconds(), time.Since(t0).Seconds(), mine)
-			f.Close()
-		}
+		crashSub.Note("cases "+cfg.String(), fmt.Sprintf("crash=%d chain=%d sched=%d", nCases["crash"], nCases["chain"], nCases["sched"]))
+		nCases = map[string]int{}
 	}
 	for _, s := range subs {
 		s.Done()
@@ -220,6 +213,9 @@ func enumCrash(rec *recording, quick bool, emit func(Case)) {
 		}
 		atK := rec.events[ck.Ev].snap
 		for _, tc := range crashPoints(rec, k) {
+			if quick && (tc.class == "file-last" || tc.class == "last-call") {
+				continue
+			}
 			atT := rec.events[tc.ev].snap
 			base := Case{Kind: "crash", K: k, T: tc.ev, TClass: tc.class}
 			emit(base)
@@ -227,37 +223,40 @@ func enumCrash(rec *recording, quick bool, emit func(Case)) {
 			if len(diff) == 0 {
 				continue
 			}
-			states := map[string][]TornFile{}
-			for _, f := range diff {
-				states[f] = tornStates(f, atK, atT, ck, quick)
+			// the two files whose product is taken: the checkpointed file (else the
+			// first differing one) and the file in progress at t (else the next one)
+			f0, f1 := diff[0], ""
+			if len(diff) > 1 {
+				f1 = diff[1]
+				if ip := tag + "/" + rec.events[tc.ev].File; ip != f0 {
+					for _, f := range diff[1:] {
+						if f == ip {
+							f1 = f
+						}
+					}
+				}
+			}
+			lvMain, lvOther, lvProd := 0, 1, 1
+			if quick {
+				lvMain, lvOther, lvProd = 1, 2, 2
 			}
 			// every single-file deviation
 			for _, f := range diff {
-				for _, st := range states[f] {
+				lv := lvOther
+				if f == f0 || f == f1 {
+					lv = lvMain
+				}
+				for _, st := range tornStates(f, atK, atT, ck, lv) {
 					c := base
 					c.Torn = []TornFile{st}
 					emit(c)
 				}
 			}
-			// product over two files: the checkpointed file (else the first
-			// differing one) and the file in progress at t (else the next one)
-			if len(diff) < 2 {
+			if f1 == "" {
 				continue
 			}
-			f0 := diff[0]
-			f1 := diff[1]
-			if ip := tag + "/" + rec.events[tc.ev].File; ip != f0 {
-				for _, f := range diff[1:] {
-					if f == ip {
-						f1 = f
-					}
-				}
-			}
-			for i, s0 := range states[f0] {
-				for j, s1 := range states[f1] {
-					if quick && (i+j)%3 != 0 {
-						continue
-					}
+			for _, s0 := range tornStates(f0, atK, atT, ck, lvProd) {
+				for _, s1 := range tornStates(f1, atK, atT, ck, lvProd) {
 					c := base
 					c.Torn = []TornFile{s0, s1}
 					emit(c)
@@ -268,10 +267,7 @@ func enumCrash(rec *recording, quick bool, emit func(Case)) {
 }
 
 func enumChain(rec *recording, quick bool, emit func(Case)) {
-	stopSets := [][]int{{0, 0, 0}, {1, 0, 1}, {0, 1, 0}, {1, 1, 1}, {0, 0, 1}, {1, 0, 0}, {0, 1, 1}, {1, 1, 0}}
-	if quick {
-		stopSets = [][]int{{0, 0, 0}, {1, 0, 1}}
-	}
+	stopSets := [][]int{{0, 0, 0}, {1, 0, 1}, {0, 1, 0}, {1, 1, 1}}
 	for k := range rec.ckpts {
 		ck := &rec.ckpts[k]
 		if ck.EncErr != nil || ck.DecErr != nil {
@@ -295,6 +291,9 @@ func enumChain(rec *recording, quick bool, emit func(Case)) {
 			}
 			for _, tn := range torn {
 				for si, st := range stopSets {
+					if (tc.class != "at-ckpt" || quick) && si > 1 {
+						continue
+					}
 					if quick && tc.class != "at-ckpt" && si > 0 {
 						continue
 					}
@@ -421,7 +420,8 @@ func (e *env) caseCrash(c Case, rec *recording, r *runner.Rec) {
 	if c.T != len(rec.events)-1 || len(c.Torn) > 0 {
 		r.Nontrivial()
 	}
-	fpTail := cfg.Bowl + ":" + cfg.Series + ":" + cfg.algo() + ":" + c.Kind + ":" + c.TClass + ":" + tornClass(c.Torn)
+	fpHead := cfg.Bowl + ":" + cfg.Series + ":" + cfg.algo()
+	fpTail := fpHead + ":" + c.Kind + ":" + tornClass(c.Torn)
 	ckGob := ck.Gob
 	calls, legs := 0, 0
 	for li := 0; li <= len(c.Stops); li++ {
@@ -466,19 +466,14 @@ func (e *env) caseCrash(c Case, rec *recording, r *runner.Rec) {
 			continue
 		}
 		if err != nil {
-			r.Failf("resume-error:"+fpTail+":"+phase+":"+errClass(err), "leg %d (%s) of resuming checkpoint %d (call %d, file %q, new-file offset %d, on-disk offset %d in %s) on crash snapshot %d (%s): %v", li, phase, c.K, ck.Call, ck.File, ck.SrcOff, ck.PhysOff, ck.PhysKey, c.T, c.TClass, err)
+			r.Failf("resume-error:"+fpHead+":"+phase+":"+errClass(err), "leg %d (%s) of resuming checkpoint %d (call %d, file %q, new-file offset %d, on-disk offset %d in %s) on crash snapshot %d (%s): %v", li, phase, c.K, ck.Call, ck.File, ck.SrcOff, ck.PhysOff, ck.PhysKey, c.T, c.TClass, err)
 			return
 		}
 		break // completed
 	}
 	r.Trans(calls + legs)
 	r.Outcome(fmt.Sprintf("%s %s %s legs=%d", c.Kind, c.TClass, tornClass(c.Torn), legs))
-	got, err := wh.Snapshot(d.out)
-	if err != nil {
-		r.Failf("snapshot-error", "%v", err)
-		return
-	}
-	if df := wh.DiffSnaps(got, rec.refTree, false); len(df) > 0 {
+	if df := compareTree(d.out, rec.refTree); len(df) > 0 {
 		r.Failf("tree-mismatch:"+fpTail, "resuming checkpoint %d (call %d, file %q, new-file offset %d, on-disk offset %d in %s) on crash snapshot %d (%s) completed without error but the tree differs from the uninterrupted run: %s", c.K, ck.Call, ck.File, ck.SrcOff, ck.PhysOff, ck.PhysKey, c.T, c.TClass, strings.Join(df, "; "))
 	}
 }
@@ -548,7 +543,7 @@ func (e *env) caseSched(c Case, rec *recording, r *runner.Rec) {
 			continue
 		}
 		if err != nil {
-			r.Failf("resume-error:"+fpTail+":"+phase+":"+errClass(err), "leg %d (%s) after %d saves, %d ShouldSave calls: %v", legs, phase, saves, call, err)
+			r.Failf("resume-error:"+cfg.Bowl+":"+cfg.Series+":"+cfg.algo()+":"+phase+":"+errClass(err), "leg %d (%s) after %d saves, %d ShouldSave calls: %v", legs, phase, saves, call, err)
 			return
 		}
 		break
@@ -558,12 +553,7 @@ func (e *env) caseSched(c Case, rec *recording, r *runner.Rec) {
 	}
 	r.Trans(call + legs)
 	r.Outcome(fmt.Sprintf("sched %s stop=%v saves>0=%v resumed=%v", sd.Mode, sd.Stop, saves > 0, legs > 1))
-	got, err := wh.Snapshot(d.out)
-	if err != nil {
-		r.Failf("snapshot-error", "%v", err)
-		return
-	}
-	if df := wh.DiffSnaps(got, rec.refTree, false); len(df) > 0 {
+	if df := compareTree(d.out, rec.refTree); len(df) > 0 {
 		r.Failf("tree-mismatch:"+fpTail, "schedule %+v (%d saves, %d legs) completed without error but the tree differs from the uninterrupted run: %s", *sd, saves, legs, strings.Join(df, "; "))
 	}
 }
